@@ -107,6 +107,12 @@ func (p *Plugin) GetImports() *Imports {
 // build builds the message dictionary from a messages in protoc file
 func (p *Plugin) build(file *generator.FileDescriptor) {
 	for _, message := range file.Messages() {
+		// The synthetic entry message of a map field is no message type of its own: a selected
+		// type of the same name must not be generated twice
+		if message.GetOptions().GetMapEntry() {
+			continue
+		}
+
 		m, err := BuildMessage(p, message, true, "")
 		if err != nil {
 			log.WithError(err).Warningf("failed to build the message %v", message.GetName())
